@@ -292,6 +292,9 @@ func rulesC08(c *Ctx) {
 			if u, isU := a.E.(*ast.UnaryExpr); isU && u.Op == token.NOT {
 				continue // the operand is listed separately with the opposite polarity
 			}
+			if def, _ := g.boolLocalDef(a.E); def != nil {
+				continue // a named condition: the tests it stands for are listed separately
+			}
 			nGate++
 			rec := false
 			if x, twn, isNil := NilTest(a.E); isNil && wr.IsField(x, esF) && a.Val != twn {
